@@ -220,10 +220,15 @@ CHECKS = {
              "signatures and the real function bodies (JSON); ModuleTree.tla models nn module trees built by New/SetAttr/Append with the three _set_name "
              "and two _register_child variants and call policies. Invariants DesignOK, DeviationsExplain, ScopeBalanced. Every printed trace is replayed "
              "into a real GraphBuilder and every tree into real onnxscript.nn classes: checker, Graph!WF via TLC, ORT vs a NumPy replay of the trace, "
-             "wiring of the built graph vs the traced calls, initializer names vs root name + state_dict() keys, second build.",
+             "wiring of the built graph vs the traced calls, initializer names vs root name + state_dict() keys, second build. Direction B: traces "
+             "recorded by env-guarded hooks in builder.py / nn/_parameter.py (one per root GraphBuilder: the repository's builder and nn tests, "
+             "hand-written drivers, a sample of the replayed traces and trees) are executed event by event by BuilderApply.tla (scope stacks, values "
+             "defined per graph, root initializers by name, constant cache with the literal behind each key) under name / scope-metadata / cache / "
+             "visibility clauses.",
         note="explicit module names equal the attribute they are assigned to; exhaustive runs use a small operator menu, the full 44-operator menu is "
              "covered by simulation; -0.0/nan literals are left to C12",
-        technique="TLA+ builder and module-tree state machines over real signatures, TLC exhaustive + simulation, each trace/tree replayed into GraphBuilder/nn + ORT + GraphCheck",
+        technique="TLA+ builder and module-tree state machines over real signatures, TLC exhaustive + simulation, each trace/tree replayed into GraphBuilder/nn + ORT + GraphCheck; "
+                  "TLC trace validation of recorded builder executions against an operational TLA+ model (BuilderApply.tla)",
         design_ref="DESIGN.md section 4 C18",
     ),
     "C15": dict(
@@ -309,8 +314,8 @@ m = {
         "guard": "ONNXSCRIPT_VERIF",
         "enable": "checks run /repo's working tree through /venv (editable install); harness-side recorders wrap methods at run time; "
                   "source hooks (onnxscript/_internal/_verif.py; call sites in converter.py, rewriter/_rewrite_rule.py, "
-                  "optimizer/_constant_folding.py and version_converter/_version_converter.py) are active only when ONNXSCRIPT_VERIF=1 is set before "
-                  "onnxscript is imported; ./check sets it for C01, C02, C03, C04, C07 and C10",
+                  "optimizer/_constant_folding.py, version_converter/_version_converter.py, _internal/builder.py and nn/_parameter.py) are active only "
+                  "when ONNXSCRIPT_VERIF=1 is set before onnxscript is imported; ./check sets it for C01, C02, C03, C04, C07, C10 and C18",
         "baseline_off_cmd": BASE,
         "source_commits": hooks_commits,
         "add_only": True,
